@@ -306,5 +306,27 @@ def _chk_paths(args, res, old):
             return "pre-existing %s.%d was overwritten or moved: %r" % (base, k, files)
 
 
-contract("cnvlib/core.py::ensure_path", params=dict(fname=Str), bounded=True, gen=_gen_paths, call=_call_paths,
+contract("cnvlib/core.py::ensure_path#rt", params=dict(fname=Str), bounded=True, gen=_gen_paths, call=_call_paths,
          modifies=("tmp", "fname"), props=("C10",), checks=[("k_writes_leave_k_files", _chk_paths)])
+
+
+# ----------------------------------------------------------------------------- deductive: ensure_path over a file-system model
+contract(
+    "cnvlib/core.py::ensure_path",
+    params=dict(fname=Str),
+    returns=Bool,
+    requires=[],
+    ensures=[
+        ("path_is_free", "not isfile(fs, fname)"),
+        ("nothing_else_touched", "forall_path(lambda p: implies(isfile(old(fs), p) and p != fname, content(fs, p) == content(old(fs), p)))"),
+        ("no_change_when_free", "implies(not isfile(old(fs), fname), same_fs(fs, old(fs)))"),
+        ("old_file_kept_under_new_name", "implies(isfile(old(fs), fname), exists_path(lambda p: not isfile(old(fs), p) and "
+                                         "content(fs, p) == content(old(fs), fname)))"),
+        ("no_new_content", "forall_path(lambda p: implies(isfile(fs, p), isfile(old(fs), p) or content(fs, p) == content(old(fs), fname)))"),
+    ],
+    loops={0: dict(inv=[("suffix_name", "bak_fname == fname + '.' + str(cnt)"), ("cnt_positive", "cnt >= 1")])},
+    ghost=dict(fs=True),
+    props=("C10",), domain="skip",
+    canaries=[("while_to_if", "while os.path.isfile(bak_fname):", "if os.path.isfile(bak_fname):"),
+              ("rename_only_with_directory", "    if os.path.isfile(fname):", '    if os.path.isfile(fname) and "/" in os.path.normpath(fname):')],
+)
